@@ -98,8 +98,26 @@ def run(facts, res):
         users[b.path] = sorted({t.callee.target() for _, t in b.calls() if t.callee is not None and t.callee.target() in
                                 ("melda::DeltaId::new_from_anchors", "melda::DeltaId::new")})
     res.instance("I2", "id constructors used: %s" % users, None)
-    if len(users) != 2 or any(v != ["melda::DeltaId::new", "melda::DeltaId::new_from_anchors"] for v in users.values()):
-        res.violation("I2", "constructors-differ", "commit and the block loader must both use DeltaId::new (first block) and DeltaId::new_from_anchors: %s" % users)
+    # DeltaId::new is new_from_anchors on the empty set (default 0, + 1 = the constant 1; both checked below), so a side may
+    # use new_from_anchors alone; where DeltaId::new is used it must sit behind an emptiness / absence test of the parents
+    if len(users) != 2 or any("melda::DeltaId::new_from_anchors" not in v for v in users.values()):
+        res.violation("I2", "constructors-differ", "commit and the block loader must both compute the block index with DeltaId::new_from_anchors (DeltaId::new only for an empty parent set): %s" % users)
+    from ..conds import lits_of as _lits
+    for b in (c, ld):
+        if b is None:
+            continue
+        for bi, t in b.calls():
+            if t.callee is None or t.callee.target() != "melda::DeltaId::new":
+                continue
+            ls = _lits(b, bi, facts)
+            empt = any((l.kind == "call" and callee_name(l.term) == "is_empty" and l.truth is True) or
+                       (l.kind == "call" and callee_name(l.term) in ("is_none",) and l.truth is True) or
+                       (l.kind == "call" and callee_name(l.term) in ("is_some",) and l.truth is False) or
+                       (l.kind == "variant" and l.variants == {"None"}) for l in ls)
+            res.instance("I2", "%s: DeltaId::new (index 1) is used only behind an emptiness / absence test: %s" % (b.path, empt), b.loc(t.line))
+            if not empt:
+                res.violation("I2", "%s|first-block-constructor-unguarded" % b.path,
+                              "%s uses DeltaId::new (index 1) without testing that the block has no parents" % b.path, b.loc(t.line))
     # the writer chooses by emptiness of the anchors, the loader by presence of parents
     if ctor is not None:
         cdu = du_of(ctor)
@@ -166,7 +184,7 @@ def run(facts, res):
                 if t.callee is not None and t.callee.name in ("eq", "ne") and c02.STATUS in (t.callee.self_ty or t.callee.full) and cb.local_ty(0) == "bool":
                     v = status_variant(arg_term(cb, t, 1, 8)) or status_variant(arg_term(cb, t, 0, 8))
                     filt.append((cb.path, t.callee.name, v[1] if v else "?"))
-        closure_form = len(filt) >= 2 and all(f[1] == "eq" and f[2] == "Applied" for f in filt)
+        closure_form = False
         ins_sites, rem_sites = [], []
         for cb in members:
             for bi, t in cb.calls():
@@ -176,11 +194,29 @@ def run(facts, res):
                     ins_sites.append((cb, bi, t))
                 if t.callee.name == "remove":
                     rem_sites.append((cb, bi, t))
-        guard_form_ins = bool(ins_sites) and all(c02.status_guard(cb, bi, facts) == "Applied" for cb, bi, t in ins_sites)
-        guard_form_rem = bool(rem_sites) and all(c02.status_guard(cb, bi, facts) == "Applied" for cb, bi, t in rem_sites)
+
+        def site_status(cb, bi):
+            """status asserted for the block at this site: by the branch literals, or (closure passed to an adaptor chain) by
+            the chain's filter closures"""
+            s_ = c02.status_guard(cb, bi, facts)
+            if s_ is None and cb.kind == "closure":
+                for cs in cg_of(facts).callers_of(cb.path):
+                    if cb in cs.closures:
+                        s_ = s_ or c02.chain_filter_status(facts, arg_term(cs.body, cs.term, 0, 30))
+            return s_
+        guard_form_ins = bool(ins_sites) and all(site_status(cb, bi) == "Applied" for cb, bi, t in ins_sites)
+        guard_form_rem = bool(rem_sites) and all(site_status(cb, bi) == "Applied" for cb, bi, t in rem_sites)
+        # candidates collected from a filtered chain: `iter().filter(|(_, d)| applied(d)).map(..).collect()`
+        for bi, t in ga.calls():
+            if t.callee is not None and t.callee.name in ("collect", "from_iter") and t.args and \
+                    c02.chain_filter_status(facts, arg_term(ga, t, 0, 30)) == "Applied":
+                closure_form = True
+        if closure_form and not ins_sites:
+            guard_form_ins = True
+        filt = [f for f in filt if not any(f[0] == cb.path for cb, _, _ in [])]
         bad_filters = [f for f in filt if not (f[1] == "eq" and f[2] == "Applied")]
-        cand_ok = (closure_form or guard_form_ins) and not bad_filters
-        rem_guard_ok = (closure_form or guard_form_rem) and not bad_filters
+        cand_ok = guard_form_ins and not bad_filters
+        rem_guard_ok = guard_form_rem and not bad_filters
         res.instance("I3", "get_anchors: candidates restricted to status == Applied (%s); parent removal restricted to status == Applied (%s) [filters %s]" % (
             cand_ok, rem_guard_ok, filt), ga.loc())
         if not (cand_ok and rem_guard_ok):
@@ -334,6 +370,18 @@ def check_normal_form(facts, res, R):
                         if somes and all(any(l.kind == "call" and callee_name(l.term) == "is_empty" and l.truth is False for l in lits_of(cm, sb, facts)) for sb in somes):
                             writer_nonempty.add(n_)
                         t = du_c.operand_term(op, 16)
+                        # `(!x.is_empty()).then_some(x)` / `.then(|| x.clone())`
+                        for y in walk(t):
+                            if y[0] == "call" and callee_name(y) in ("then_some", "then") and y[2]:
+                                c0 = y[2][0]
+                                while c0[0] == "var":
+                                    c0 = c0[3]
+                                if c0[0] == "unop" and c0[1] == "Not":
+                                    c1 = c0[2]
+                                    while c1[0] == "var":
+                                        c1 = c1[3]
+                                    if c1[0] == "call" and callee_name(c1) == "is_empty":
+                                        writer_nonempty.add(n_)
                         if contains_call(t, "map") and contains_call(t, R.name("pack_writer")):
                             writer_nonempty.add(n_)   # Option<String> mapped to a one-element set
         res.instance("I6", "loader drops empty %s; commit never writes empty %s" % (sorted(guarded), sorted(writer_nonempty)), ld.loc())
